@@ -5,14 +5,14 @@ import glob, json, os, re
 root = os.path.dirname(os.path.dirname(os.path.abspath(__file__)))
 ft = json.load(open(os.path.join(root, "tools", "first_trial_r56.json")))
 first = {}
-for rnd in "56":
+for rnd in "567":
     for k, ids in ft[rnd].items():
         for i in ids:
             first[i] = {"fi": "detected with a failing input by the property's own check (first trial)",
                         "nfi": "first trial: reported without a concrete input (a tie broke); the generator / oracle was widened afterwards",
                         "missed": "first trial: MISSED (exit 0); the generator / oracle was widened afterwards"}[k]
 n = 0
-for f in sorted(glob.glob(os.path.join(root, "seeded", "C??-1[3-6]", "meta.json"))):
+for f in sorted(glob.glob(os.path.join(root, "seeded", "C??-1[3-8]", "meta.json"))):
     m = json.load(open(f)); sid = m["id"]; p = sid.split("-")[0]
     log = f"/tmp/trial_logs/fin_{sid}.log"
     if not os.path.exists(log):
@@ -22,6 +22,6 @@ for f in sorted(glob.glob(os.path.join(root, "seeded", "C??-1[3-6]", "meta.json"
     verdict = "MISSED" if not rc or rc.group(1) == "0" else ("failing-input" if viol > nfi else "no-failing-input-found")
     m["first_trial"] = first.get(sid, "")
     m["confirmed_by_coordinator"]["detected_by"] = {p: verdict}
-    m["confirmed_by_coordinator"]["note"] = "round %s; final re-trial against the committed checks (tools/regress_r56.sh)" % ("5" if int(sid.split("-")[1]) <= 14 else "6")
+    m["confirmed_by_coordinator"]["note"] = "round %s; final re-trial against the committed checks (tools/regress_r56.sh)" % ("5" if int(sid.split("-")[1]) <= 14 else ("6" if int(sid.split("-")[1]) <= 16 else "7"))
     json.dump(m, open(f, "w"), indent=1); n += 1
 print("updated", n)
